@@ -503,6 +503,23 @@ func RandomOp(r *hx.Rng, d Desc, kinds []string) OpDesc {
 		case "laplacian":
 			fits = topo != modeling.PointTopology && topo != modeling.QuadTopology
 		}
+		// an operation on an attribute of some arity mostly goes to a mesh that has one
+		hasArity := func(n int) bool {
+			for _, a := range d.Attrs {
+				if a.Arity == n {
+					return true
+				}
+			}
+			return false
+		}
+		switch op {
+		case "scale2", "normalize2":
+			fits = fits && hasArity(2)
+		case "translate", "scale3", "rotate", "center", "normalize3", "laplacian", "weld", "remove_null", "crop", "scale_along_normal":
+			fits = fits && hasArity(3)
+		case "apply_trs", "repeat", "smooth_normals", "flat_normals", "smooth_implicit":
+			fits = fits && d.Has(3, "Position")
+		}
 		if fits || tries > 6 || r.Chance(1, 10) {
 			break
 		}
@@ -600,8 +617,15 @@ func RandomOp(r *hx.Rng, d Desc, kinds []string) OpDesc {
 		o.Attr2 = pickAttr(r, d, 3, "Normal")
 		o.PT = int64(r.Range(-3, 3))
 	}
-	if o.Variant == "t" && r.Chance(1, 4) && o.Op != "filter" && o.Op != "normalize2" && o.Op != "scale_along_normal" {
-		o.Attr = "" // Transformer fallback attribute
+	if o.Variant == "t" && o.Op != "filter" && o.Op != "normalize2" && o.Op != "scale_along_normal" {
+		// Transformer fallback attribute: likely when the mesh has the default attribute
+		fallbackPresent := d.Has(3, "Position")
+		if o.Op == "scale2" {
+			fallbackPresent = d.Has(2, "TexCoord")
+		}
+		if (fallbackPresent && r.Chance(1, 2)) || r.Chance(1, 8) {
+			o.Attr = ""
+		}
 	}
 	return o
 }
